@@ -41,6 +41,51 @@ def scenarios(tier: str, seed: int) -> list[dict]:
     return scs
 
 
+MODEL_CALLERS = {1: {"kind": "I", "zone": 1, "mr": 1, "wfr": False, "prio": 2},
+                 2: {"kind": "RQ", "zone": 2, "mr": 1, "wfr": True, "prio": 2}}
+
+
+def _replay(beh) -> dict:
+    from harness import fakes, qos_director
+    fakes.quiet_logging()
+    try:
+        return qos_director.replay_behaviour(beh, MODEL_CALLERS)
+    except BaseException as err:  # noqa: BLE001
+        return {"harness_error": f"{type(err).__name__}: {err}"}
+
+
+def model_check(tier: str) -> dict:
+    """TLC on the implementation-shaped model of the current code (all repair flags on)."""
+    cfg = "MC_QosFsm_fixed.cfg" if tier == "quick" else "MC_QosFsm_deep.cfg"
+    r = tlc.run_tlc("MC_QosFsm", cfg, workers=8 if tier == "quick" else 12, timeout=3000)
+    return {"cfg": cfg, "ok": r.ok, "violated": r.violated, "states": r.distinct, "transitions": r.states,
+            "depth": r.depth, "wall_s": round(r.wall_s, 1), "errors": r.errors[:3]}
+
+
+def spec_to_code(tier: str, seed: int) -> tuple[list[dict], int]:
+    """Behaviours of the model (TLC -simulate) replayed through the real PortProtocol by the Director."""
+    import shutil
+    import tempfile
+    n = 300 if tier == "quick" else 4000
+    d = tempfile.mkdtemp(prefix="vqsim_")
+    try:
+        behs = []
+        for k, cfg in enumerate(["MC_QosFsm_fixed.cfg", "MC_QosFsm_deep.cfg"]):
+            r = tlc.run_tlc("MC_QosFsm", cfg, simulate=f"file={d}/tr{k}_,num={n // 2}", depth=80, seed=seed + 1 + k,
+                            workers=1, timeout=1200)
+            if r.errors or r.violated:
+                raise tlc.MachineryFailure(f"TLC -simulate failed: {r.violated} {r.errors[:2]}")
+            behs += tlc.read_sim_traces(f"{d}/tr{k}_")
+    finally:
+        shutil.rmtree(d, ignore_errors=True)
+    if len(behs) < 8:
+        outs = [_replay(b) for b in behs]
+    else:
+        with mp.get_context("fork").Pool(NPROC) as pool:
+            outs = pool.map(_replay, behs, chunksize=8)
+    return outs, len(behs)
+
+
 def judge(items: list[dict], workers=None) -> dict:
     return tlc.validate_batch("QosTrace", items, workers=workers, chunk=3000, timeout=1800)
 
@@ -66,12 +111,35 @@ def run_check(pid: str, tier: str, replay: str | None) -> None:
         print("verdict:", res["rejects"] or "accepted")
         raise SystemExit(1 if res["rejects"] else 0)
     t0 = time.time()
+    # (1) the design: TLC on the implementation-shaped model
+    mc = model_check(tier)
+    if not mc["ok"]:
+        # a failed model invariant is a candidate only (DESIGN 3.1): it does not raise a verdict by itself;
+        # the real executions below decide.  It does mean the model no longer describes the code.
+        chk.model_drift(f"TLC: model of the current code violates {mc['violated'] or mc['errors']} ({mc['cfg']})")
+    # (2) spec -> code: model behaviours replayed on the real code, state compared at every boundary
+    outs, nbeh = spec_to_code(tier, chk.seed)
+    herr = [o["harness_error"] for o in outs if "harness_error" in o]
+    if herr:
+        raise RuntimeError(f"{len(herr)} replays failed in the harness, e.g. {herr[0]}")
+    ndrift = 0
+    compared = 0
+    for o in outs:
+        compared += o.get("compared", 0)
+        if o["drift"]:
+            ndrift += 1
+            chk.model_drift(o["drift"][0])
+    dir_items = [{k: o[k] for k in ("echo_to", "rply_to", "untimed", "ev")} for o in outs if not o.get("aborted")]
+    # (3) code -> spec: systematic + seeded scenarios on natural virtual time
     scs = scenarios(tier, chk.seed)
     items = run_scenarios(scs)
     t_run = time.time() - t0
     herr = [(i, it["harness_error"]) for i, it in enumerate(items) if "harness_error" in it]
     if herr:
         raise RuntimeError(f"{len(herr)} scenarios failed in the harness, e.g. {herr[0]}")
+    n_nat = len(items)
+    scs = scs + [{"director_replay": k} for k in range(len(dir_items))]
+    items = items + dir_items
     res = judge(items)
     mine = 0
     others: dict[str, int] = {}
@@ -89,8 +157,10 @@ def run_check(pid: str, tier: str, replay: str | None) -> None:
     distinct = len({json.dumps(it["ev"], sort_keys=True) for it in items})
     chk.finish(
         coverage={
-            "states": res["states"], "transitions": res["transitions"],
-            "traces_validated_against_impl": res["n"],
+            "states": mc["states"], "transitions": mc["transitions"], "model_check": mc,
+            "spec_to_code": {"behaviours_replayed": nbeh, "boundaries_compared": compared, "behaviours_with_drift": ndrift},
+            "traces_validated_against_impl": res["n"], "natural_scenarios": n_nat,
+            "trace_validation_states": res["states"],
             "distinct_traces": distinct,
             "scenarios": len(scs),
             "samples": [scs[0], scs[len(scs) // 2], scs[-1]],
